@@ -135,7 +135,7 @@ def _build_units():
     units.append(Unit('INDIRECTEFFECT(*,DEGRADATION)', 'INDIRECTEFFECT',
                       [(m, 'DEGRADATION') for m in PD_ALL]))
     names('METABOLITE', 'METABOLITE', [('PSC', ['PSC']), ('[BASIC,PSC]', ['BASIC', 'PSC']), ('*', MET_ALL)],
-          core=('PSC',))
+          core=('PSC', '[BASIC,PSC]'))
     units.append(Unit('ALLOMETRY(WGT)', 'ALLOMETRY', [('WGT', 70.0)]))
     units.append(Unit('ALLOMETRY(WGT,70)', 'ALLOMETRY', [('WGT', 70.0)]))
     units.append(Unit('ALLOMETRY(WT,75.5)', 'ALLOMETRY', [('WT', 75.5)], core=True))
@@ -790,9 +790,10 @@ def _mfl_pair_cases(tier):
             rt = tier != 'quick' or (UNIT_BY_TEXT[a[0]].core and UNIT_BY_TEXT[b[0]].core)
             yield (a, b, rt)
     if tier == 'quick':
-        # two-statement spaces against every single-statement space, both ways
+        # two-description spaces against every core one-description space, both ways
+        core = [x for x in single if UNIT_BY_TEXT[x[0]].core]
         for a in two:
-            for b in single:
+            for b in core:
                 yield (a, b, False)
                 yield (b, a, False)
     else:
@@ -923,8 +924,8 @@ def bounded_mfl(tier):
                  f'feature kind, lists in both orders, ranges, wildcards, LET references, upper/lower '
                  f'case, blanks; ";" and newline separators); all ordered pairs of the {len(single)} '
                  f'one-description spaces and each of the {len(two)} two-description spaces (over '
-                 f'{ncore} core descriptions) against every one-description space both ways; all int '
-                 f'tuples of length <=4 over 0..4')
+                 f'{ncore} core descriptions) against every core one-description space both ways; all '
+                 f'int tuples of length <=4 over 0..4')
     else:
         bound = (f'all MFL strings of <=2 feature descriptions over {len(UNITS)} descriptions and of 3 '
                  f'over {ncore} core descriptions; all ordered pairs of spaces with a two-description '
